@@ -46,7 +46,7 @@ def batch_family(tier, seed):
     keys = [f(k) for k in BK]
     vals = [b"\x01", hc.LONG_A]
     out = []
-    if tier == "quick":
+    if tier in ("quick", "thorough"):
         for size in range(0, 3):
             for sub in itertools.combinations(range(3), size):
                 pats = [[vals[0]] * size, [vals[1]] * size] if size else [[]]
@@ -75,9 +75,9 @@ def configure(cfg):
     global CFG, KEYS, VALS, MODEL, PRE, QS
     CFG = dict(cfg)
     f = hc._ROT[cfg.get("seed", 0) % 3]
-    nk = 3 if cfg["tier"] == "quick" else 5
+    nk = 3
     KEYS = [f(k) for k in BK][:nk]
-    VALS = BV[:3] if cfg["tier"] == "quick" else BV
+    VALS = BV[:3]
     MODEL = dict(batch_family(cfg["tier"], cfg.get("seed", 0))[cfg["mi"]])
     PRE = hc.canonical_state(MODEL)
     qs = set(f(k) for k in BK) | set(MODEL)
